@@ -114,6 +114,8 @@ def gen_soils(rnd, thorough):
         {"reader": "txt", "hs": [(4, 2, None, 0), (16, 5, None, 0)], "why": "class 5 subsoil"},
         {"reader": "csv", "hs": [(3, 1, "0.3", 0), (20, 3, None, 0)], "why": "F17: measured density of an organic topsoil"},
         {"reader": "csv", "hs": [(3, 2, "1.41", 0), (20, 4, None, 20)], "why": "groundwater inside the profile (soil file level 8 dm)", "gw": "08"},
+        {"reader": "csv", "hs": [(3, 2, "1.38", 0), (11, 4, None, 0), (20, 5, None, 10)], "why": "texture-table route (no FC/WP/PV columns)", "table": True},
+        {"reader": "txt", "hs": [(3, 1, None, 0), (12, 3, None, 0), (20, 5, None, 0)], "why": "texture-table route (no FC/WP/PV columns)", "table": True},
     ]
     for k in range(40 if thorough else 3):
         reader = "csv" if k % 2 == 0 else "txt"
@@ -143,16 +145,18 @@ def write_soils(ex, soils):
             for k, (u, c, m, st) in enumerate(so["hs"]):
                 if so["reader"] == "csv":
                     # SID,C_org,Texture,LayerDepth,BulkDensityClass,BulkDensity,Stone,C/N,C/S,RootDepth,NumberHorizon,FC,WP,PV,Sand,Silt,Clay,DrainageDepth,Drainage%,GW
+                    fwp = (",,", ",,") if so.get("table") else ("20,09,40", "18,09,40")   # no FC/WP/PV columns: texture-table route
                     if k == 0:
-                        fc.write("%s,0.70,SL3,%02d,%d,%s,%02d,10,00,05,%02d,20,09,40,78,13,09,20,00,%s\n" % (so["sid"], u, c, m or "", st, nh, so.get("gw", "99")))
+                        fc.write("%s,0.70,SL3,%02d,%d,%s,%02d,10,00,05,%02d,%s,78,13,09,20,00,%s\n" % (so["sid"], u, c, m or "", st, nh, fwp[0], so.get("gw", "99")))
                     else:
-                        fc.write("%s,0.31,SL3,%02d,%d,%s,%02d,10,00,,,18,09,40,77,13,10,20,00,   \n" % (so["sid"], u, c, m or "", st))
+                        fc.write("%s,0.31,SL3,%02d,%d,%s,%02d,10,00,,,%s,77,13,10,20,00,   \n" % (so["sid"], u, c, m or "", st, fwp[1]))
                 else:
                     # fixed columns: [0:3] SID [4:8] Corg [9:12] texture [13:15] depth [16:17] class [18:20] stone ... [32:34] root depth [35:37] horizons
+                    f1, f2 = ("        ", "        ") if so.get("table") else ("31 16 45", "29 19 45")
                     if k == 0:
-                        ft.write("%s 1.14 ULS %02d %d %02d 10      00 05 %02d   31 16 45 26 63 11 00  20   00 99 01\n" % (so["sid"], u, c, st, nh))
+                        ft.write("%s 1.14 ULS %02d %d %02d 10      00 05 %02d   %s 26 63 11 00  20   00 99 01\n" % (so["sid"], u, c, st, nh, f1))
                     else:
-                        ft.write("%s 0.40 ULS %02d %d %02d 10      00         29 19 45 26 63 11 00  20   00       \n" % (so["sid"], u, c, st))
+                        ft.write("%s 0.40 ULS %02d %d %02d 10      00         %s 26 63 11 00  20   00       \n" % (so["sid"], u, c, st, f2))
 
 
 def write_weather(ex, rnd):
@@ -321,6 +325,30 @@ def plan_runs(ctx):
                 if so["reader"] == "csv" else
                 "project=ex1 WeatherFolder=historical soilId=%s fcode=109_120 plotNr=10001 Altitude=73 Latitude=52.6732 poligonID=29872") % so["sid"]
         plan.append({"line": "%s EndDate=12311981 resultfolder=R/c19_%d @every=%d @weather-ref=csv" % (base, len(plan), 60 if ctx.thorough else 16), "soil": so})
+    # texture-table route soils under a MOVING groundwater table (the capacities are re-derived per layer whenever the level
+    # changes, run.go:375-412): polygon-file sinusoid and a series, csv and txt soil; the density tie holds on every day
+    import datetime
+    for proj, fmt_ in (("bulk", "%m%d%Y"), ("ex1", "%m%d%Y")):
+        pp = os.path.join(ex, "project", proj, "poly_%s.txt" % proj)
+        ptxt = open(pp).read()
+        open(pp, "w").write(re.sub(r"(?m)^(\d+\s+\S+\s+\S+\s+)\S+(\s+)\S+", r"\g<1>6\g<2>15", ptxt))
+        with open(os.path.join(ex, "project", proj, "gw_%s.csv" % proj), "w") as f:
+            f.write("SID,DATE,Level\n")
+            for so in soils:
+                if so.get("table"):
+                    d = datetime.date(1980, 9, 1)
+                    while d < datetime.date(1982, 2, 1):
+                        f.write("%s,%s,%.1f\n" % (so["sid"], d.strftime(fmt_), rnd.uniform(5, 16)))
+                        d += datetime.timedelta(days=rnd.randint(10, 50))
+    for so in soils:
+        if not so.get("table"):
+            continue
+        for src, name in ((0, "polygon-file sinusoid 6..15 dm"), (2, "series 5..16 dm")):
+            base = ("project=bulk WeatherFolder=historical soilId=%s fcode=109_120 plotNr=10002 Altitude=73 Latitude=52.6732 poligonID=29872"
+                    if so["reader"] == "csv" else
+                    "project=ex1 WeatherFolder=historical soilId=%s fcode=109_120 plotNr=10001 Altitude=73 Latitude=52.6732 poligonID=29872") % so["sid"]
+            plan.append({"line": "%s GroundWaterFrom=%d EndDate=12311981 resultfolder=R/c19_%d @every=%d @weather-ref=csv" % (base, src, len(plan), 60 if ctx.thorough else 30),
+                         "soil": so, "moving_gw": name})
     # the same tie and oracle with the pedotransfer routes PTF = 1..4 (non-default water-retention source): csv soils with a
     # measured density and class-only horizons, txt soils (class only)
     adm = [so for so in soils if min(so["input_density"]) >= 0.567]
@@ -354,10 +382,10 @@ def dec_lit(m):
     return "(dec %d%%Z %d%%nat)" % (int(ip + fp), len(fp))
 
 
-def eval_bd(ctx, corr, inits, plan):
+def eval_bd(ctx, corr, inits, plan, bddays=()):
     """g.BD of every 10-cm layer after Input against the soil file of the generated runs"""
     recs, meta = [], []
-    for it in inits:
+    for it in list(inits) + [dict(x, bulk=[], ld=[], ukt=[], stein=[]) for x in bddays]:
         so = plan[it["line"]]["soil"]
         if so is None:
             continue
@@ -387,10 +415,12 @@ def eval_bd(ctx, corr, inits, plan):
 
 def fail_key(line_key, plan):
     """name a failing traced run after its soil FILE: only an input density below 0.567 is the recorded finding F17"""
-    m = re.match(r"(envelope|surface-value|lower-boundary):traced-line-(\d+)$", line_key)
+    m = re.match(r"(envelope|surface-value|lower-boundary|bulk-density):traced-line-(\d+)$", line_key)
     if not m or int(m.group(2)) >= len(plan):
         return line_key, None
     p = plan[int(m.group(2))]
+    if m.group(1) == "bulk-density":
+        return "bulk-density:changed-during-the-run:line-%s%s" % (m.group(2), ":" + p["moving_gw"].split(" ")[0] if p.get("moving_gw") else ""), p.get("soil")
     if m.group(1) == "lower-boundary":
         return "lower-boundary:not-the-configured-annual-mean:line-%s" % m.group(2), None
     if m.group(1) == "surface-value" or p["soil"] is None:
@@ -419,7 +449,14 @@ def correspond(ctx):
         if x["k"] == "replaydiff":
             c.mismatches.append({"kind": "trace-replay-differs (state between the probes is not Soiltemp's alone)", "at": x})
     eval_cases(ctx, c, cases, inits)
-    eval_bd(ctx, c, inits, plan)
+    eval_bd(ctx, c, inits, plan, [x for x in rows if x["k"] == "bdday"])
+    for r_ in runs:
+        if r_.get("bd_changed_days"):
+            c.mismatches.append({"kind": "layer-bulk-density changed during the run", "days": r_["bd_changed_days"], "line": plan[r_["line"]]["line"]})
+    mv = [plan[r_["line"]] for r_ in runs if plan[r_["line"]].get("moving_gw") and r_["success"] and r_["days"] > 300]
+    ctx.extra["table_route_soils_under_moving_groundwater"] = ["%s soil, %s" % (p_["soil"]["reader"], p_["moving_gw"]) for p_ in mv]
+    if len({(p_["soil"]["reader"], p_["moving_gw"]) for p_ in mv}) < 4:
+        c.mismatches.append({"kind": "coverage-missing", "what": "texture-table soils (csv, txt) x moving groundwater (sinusoid, series)"})
     seen = set()
     for cs in cases:
         i, o = cs["in"], cs["out"]
